@@ -206,6 +206,54 @@ pub fn c16_instance(a: &InstanceInformation) -> Vec<String> {
             out.push("instance-set: HashSet::contains misses an equal InstanceInformation".to_string());
         }
     }
+    // Near twins: values that differ from `a` in a way an implementation may or may not regard
+    // as equal (the instance name escaped / unescaped, an attribute value `None` vs `Some("")`,
+    // an IPv4-mapped address vs its IPv4 form). Nothing is demanded about their equality; but
+    // IF one compares equal to `a`, it must hash like `a` and be found in a set holding `a`.
+    let mut twins: Vec<InstanceInformation> = Vec::new();
+    let with_name = |name: String| {
+        let mut t = InstanceInformation::new(name);
+        t.ip_addresses = a.ip_addresses.clone();
+        t.ports = a.ports.clone();
+        t.attributes = a.attributes.clone();
+        t
+    };
+    twins.push(with_name(a.unescaped_instance_name()));
+    twins.push(with_name(a.escaped_instance_name()));
+    if let Some((k, v)) = attrs.first() {
+        let mut t = a.clone();
+        t.attributes.insert(k.clone(), match v {
+            None => Some(String::new()),
+            Some(x) if x.is_empty() => None,
+            Some(_) => None,
+        });
+        twins.push(t);
+    }
+    if let Some(ip) = ips.first() {
+        let other = match ip {
+            std::net::IpAddr::V4(v4) => std::net::IpAddr::V6(v4.to_ipv6_mapped()),
+            std::net::IpAddr::V6(v6) => v6.to_ipv4_mapped().map(std::net::IpAddr::V4).unwrap_or(*ip),
+        };
+        if other != *ip && !a.ip_addresses.contains(&other) {
+            let mut t = a.clone();
+            t.ip_addresses.remove(ip);
+            t.ip_addresses.insert(other);
+            twins.push(t);
+        }
+    }
+    for t in &twins {
+        if *a == *t {
+            let rs = std::collections::hash_map::RandomState::new();
+            if h3(a, &rs) != h3(t, &rs) {
+                out.push("instance-hash: a near-twin InstanceInformation compares equal but hashes differently".to_string());
+            }
+            let mut set: HashSet<InstanceInformation> = HashSet::new();
+            set.insert(a.clone());
+            if !set.contains(t) {
+                out.push("instance-set: HashSet::contains misses a near-twin InstanceInformation that compares equal".to_string());
+            }
+        }
+    }
     out
 }
 
